@@ -96,11 +96,13 @@ def victim_term(v, before, obs, unread_hint):
 
 def to_model(case, obs):
     terms, probes, problems = [], [], []
-    c_end = peer_end(obs, "C")
-    unread_hint = not (c_end is not None and c_end[0] == "eof")
     for (k, name, victims, before, after, r) in fault_events(case, obs):
         if before is None or r != "ok":
             continue
+        # whether the peer that never reads already holds unread data is not visible in the
+        # tables (it sits in the stream's receive channel): taken from what its client then saw
+        c_end = peer_end(obs, "C", before["hosts"][1]["starts"] - 1)
+        unread_hint = not (c_end is not None and c_end[0] == "eof")
         for v in victims:
             if not before["hosts"][v]["running"]:
                 continue
